@@ -52,8 +52,8 @@ TEXT = {
     "note": "Holds for the specification model. Listed findings with exact attribution: the unique index is not maintained when an UPDATE "
             "changes a key column (pinned by test_index_maintained_on_update: old key blocked, new key accepted twice), one index entry per "
             "key (delete + re-insert + rollback loses the live row's entry), the check at commit covers INSERTed keys only (an UPDATE to a key "
-            "and a concurrent INSERT of it both commit), rolled-back UPDATEs stay (pinned), statements not atomic inside a session. Six defects repaired by fix: commits: write sets were never recorded (lost updates), two open transactions inserting the same key "
-            "both committed, "
+            "and a concurrent INSERT of it both commit), rolled-back UPDATEs stay (pinned). Seven defects repaired by fix: commits: write sets were never recorded (lost updates), two open transactions inserting the same key "
+            "both committed, a statement failing after its first row kept the rows before it, "
             "constraints added by ALTER TABLE were never enforced and PRIMARY KEY columns stayed nullable, SET NOT NULL accepted existing "
             "NULLs, NULL in a UNIQUE column was refused with a type error, UPDATE of a non-key column of an indexed table failed.",
     "technique": "Lean 4 invariant + refinement proof, decidable constraint checker on observed contents, differential correspondence",
